@@ -109,8 +109,12 @@ def argv(scn, db, directory):
         a.append('--no-strong-redirects')
     if not o['robots']:
         a.append('--no-robots')
-    if o['auth']:
+    if o['auth'] == 1:
         a += ['--http-user', 'u', '--http-password', 'p']
+    elif o['auth'] == 2:
+        a += ['--http-password', 'p']          # half a credential: nothing to send, so nothing to retry with
+    elif o['auth'] == 3:
+        a += ['--http-user', 'u']
     return a
 
 
@@ -219,13 +223,18 @@ def c18_catalogue(quick):
         'drop-forever': [U(1, links=[2, 3]), U(2, kind='drop'), U(3)],
         'unauthorized': [U(1, links=[2]), U(2, kind='unauthorized')],
         'start-fails': [U(1, kind='error500')],
+        # a Location header that is present but empty / blank, for several redirect codes
+        'empty-location': [U(1, links=[2, 3]), U(2, kind='redirect', rto=0, location=' '), U(3, kind='redirect', rto=0, location=' ', code=307)],
+        'blank-location': [U(1, links=[2]), U(2, kind='redirect', rto=0, location='\t ', code=302)],
+        'fragment-location': [U(1, links=[2]), U(2, kind='redirect', rto=0, location='#top')],
+        'query-self-location': [U(1, links=[2]), U(2, kind='redirect', rto=0, location='?')],
         'mixed-307': [U(1, links=[2]), U(2, kind='redirect', rto=3, code=307), U(3, kind='redirect', rto=2, code=308)],
         'flaky': [U(1, links=[2]), U(2, kind='script', seq=['error500', 'drop', 'page'], links=[])],
     }
     for name, urls in loops.items():
         for T in ((1, 2) if quick else (1, 2, 3)):
             for R in ((0, 2) if quick else (0, 1, 2, 5)):
-                for auth in ((0, 1) if name == 'unauthorized' else (0,)):
+                for auth in ((0, 1, 2, 3) if name == 'unauthorized' else (0,)):
                     out.append(scenario('%s-T%d-R%d-A%d' % (name, T, R, auth), urls,
                                         dict(tries=T, maxredir=R, auth=auth), N=1, benign=0))
     out.append(scenario('error-forever-N2', loops['error-forever'], dict(tries=2), N=2, benign=0))
